@@ -187,12 +187,24 @@ def signatures(fn):
     return out, every
 
 
+def _plain_ranges(tree):
+    """range(0, n) and range(0, n, 1) are range(n): one spelling (applied to the reference tree and to the analysed tree)."""
+    for n in ast.walk(tree):
+        if isinstance(n, ast.Call) and isinstance(n.func, ast.Name) and n.func.id == 'range' and not n.keywords:
+            a = n.args
+            if len(a) == 3 and isinstance(a[2], ast.Constant) and a[2].value == 1:
+                a = n.args = a[:2]
+            if len(a) == 2 and isinstance(a[0], ast.Constant) and a[0].value == 0 and not isinstance(a[0].value, bool):
+                n.args = a[1:]
+
+
 def build_table(repo_root, live):
     table = {}
     for pkg, names in live.items():
         for name in names:
             rel = '%s/%s.py' % (pkg, name)
             tree = ast.parse(open(os.path.join(repo_root, rel), encoding='utf-8').read())
+            _plain_ranges(tree)
             for qual, fn in functions(tree):
                 sg, _ = signatures(fn)
                 table['%s::%s' % (rel, qual)] = {'params': _param_list(fn), 'locals': sorted([d, k, x] for x, (d, k) in sg.items())}
@@ -475,6 +487,104 @@ def _inline_multi(fn, body, i, st, t, uses):
     return True
 
 
+def reshape_unknown_conditional_assigns(fn, known_sigs, known_names=frozenset()):
+    """Two spellings of one conditional binding are brought together when the spelled one has no counterpart in the reference
+    tree: `if c: x = a / else: x = b` (one plain-name target, nothing else in either branch) is read as `x = a if c else b`;
+    `x, y = (a1, a2) if c else (b1, b2)` is read as `if c: x, y = a1, a2 / else: x, y = b1, b2`."""
+    sg, _ = signatures(fn)
+    n = 0
+    for body, loops in _blocks(fn):
+        for i, st in enumerate(body):
+            if isinstance(st, ast.If) and len(st.body) == 1 and len(st.orelse) == 1 \
+                    and all(isinstance(b, ast.Assign) and len(b.targets) == 1 and isinstance(b.targets[0], ast.Name) for b in (st.body[0], st.orelse[0])) \
+                    and st.body[0].targets[0].id == st.orelse[0].targets[0].id:
+                t = st.body[0].targets[0].id
+                if t in sg and sg[t][0] not in known_sigs and _pure(st.test):
+                    new = ast.Assign(targets=[ast.Name(id=t, ctx=ast.Store())],
+                                     value=ast.IfExp(test=st.test, body=st.body[0].value, orelse=st.orelse[0].value))
+                    body[i] = ast.copy_location(new, st)
+                    ast.fix_missing_locations(body[i])
+                    n += 1
+            elif isinstance(st, ast.Assign) and len(st.targets) == 1 and isinstance(st.targets[0], ast.Tuple) and isinstance(st.value, ast.IfExp) \
+                    and isinstance(st.value.body, ast.Tuple) and isinstance(st.value.orelse, ast.Tuple) \
+                    and len(st.value.body.elts) == len(st.value.orelse.elts) == len(st.targets[0].elts) \
+                    and all(isinstance(e, ast.Name) for e in st.targets[0].elts):
+                names = [e.id for e in st.targets[0].elts]
+                if any(x in sg and sg[x][0] not in known_sigs for x in names):
+                    new = ast.If(test=st.value.test,
+                                 body=[ast.Assign(targets=[copy.deepcopy(st.targets[0])], value=st.value.body)],
+                                 orelse=[ast.Assign(targets=[copy.deepcopy(st.targets[0])], value=st.value.orelse)])
+                    body[i] = ast.copy_location(new, st)
+                    ast.fix_missing_locations(body[i])
+                    n += 1
+    return n
+
+
+def split_unknown_block_local_defs(fn, known_sigs, known_names=frozenset()):
+    """A local without counterpart in the reference tree that is bound by several block-level `t = E` statements, each of
+    which is the only definition that can reach the reads that follow it in its block (every read of t lies after exactly one
+    definition in that definition's block, before the next one there, and no definition is nested in another's region), is
+    split into one name per definition.  Each is then an ordinary single-definition temporary."""
+    sg, every = signatures(fn)
+    params = _params(fn)
+    cands = {}
+    for body, loops in _blocks(fn):
+        for i, st in enumerate(body):
+            if isinstance(st, ast.Assign) and len(st.targets) == 1 and isinstance(st.targets[0], ast.Name):
+                cands.setdefault(st.targets[0].id, []).append((body, i, st))
+    done = []
+    for t, defs in sorted(cands.items()):
+        if len(defs) < 2 or t in params or t in known_names or t not in sg or sg[t][0] in known_sigs:
+            continue
+        stores = [n for n in ast.walk(fn) if isinstance(n, ast.Name) and n.id == t and isinstance(n.ctx, (ast.Store, ast.Del))]
+        if len(stores) != len(defs):
+            continue                      # bound elsewhere too (loop target, tuple target, augmented assignment)
+        if any(isinstance(n, ast.AugAssign) and isinstance(n.target, ast.Name) and n.target.id == t for n in ast.walk(fn)):
+            continue
+        loads = [n for n in ast.walk(fn) if isinstance(n, ast.Name) and n.id == t and isinstance(n.ctx, ast.Load)]
+        regions = []
+        ok = True
+        for body, i, st in defs:
+            if any(isinstance(n, ast.Name) and n.id == t for n in ast.walk(st.value)):
+                ok = False
+                break
+            j = len(body)
+            for k in range(i + 1, len(body)):
+                if any(d[2] is body[k] for d in defs):
+                    j = k
+                    break
+            reg = body[i + 1:j]
+            inner = {id(n) for r in reg for n in ast.walk(r)}
+            if any(id(d[2]) in inner for d in defs):
+                ok = False                # another definition nested in this region
+                break
+            regions.append(inner)
+        if not ok:
+            continue
+        owner = {}
+        for ld in loads:
+            own = [k for k, inner in enumerate(regions) if id(ld) in inner]
+            if len(own) != 1:
+                ok = False
+                break
+            owner[id(ld)] = own[0]
+        if not ok:
+            continue
+        for k, (body, i, st) in enumerate(defs):
+            if k == 0:
+                continue
+            new = '%s__%d' % (t, k + 1)
+            while new in every:
+                new += '_'
+            every.add(new)
+            st.targets[0].id = new
+            for ld in loads:
+                if owner[id(ld)] == k:
+                    ld.id = new
+        done.append(t)
+    return done
+
+
 def split_unknown_tuple_assigns(fn, known_sigs, known_names=frozenset()):
     """`a, b = e1, e2` whose targets are all locals without counterpart in the reference tree and whose right-hand sides do not
     mention any of the targets becomes `a = e1; b = e2` (same values: nothing the right-hand sides read is rebound in between)."""
@@ -702,10 +812,19 @@ def inline_unknown_closures(fn, rel, qual, tb):
 
 
 def inline_unknown_helpers(tree, rel, tb):
-    """A module-level function that the reference tree does not have and whose body is one `return E` with E pure is inlined at
-    its call sites (arguments that are plain names / constants / attributes, each parameter used at most as often as that is
-    safe): the caller then has the shape it had before the helper was extracted."""
+    """A module-level function or a method that the reference tree does not have and whose body is one `return E` with E pure
+    is inlined at its call sites (arguments that are plain names / constants / attributes; methods: called on `self` inside
+    their class): the caller then has the shape it had before the helper was extracted.  `f(*h())` with a tuple-valued helper
+    becomes f(e1, e2)."""
     helpers = {}
+
+    def one_return(st):
+        body = [b for b in st.body if not (isinstance(b, ast.Expr) and isinstance(b.value, ast.Constant))]
+        a = st.args
+        if len(body) == 1 and isinstance(body[0], ast.Return) and body[0].value is not None and _pure(body[0].value) \
+                and not a.vararg and not a.kwarg and not a.kwonlyargs and not a.defaults and not st.decorator_list:
+            return [x.arg for x in a.posonlyargs + a.args], body[0].value
+        return None
     for st in tree.body:
         if isinstance(st, ast.FunctionDef) and '%s::%s' % (rel, st.name) not in tb:
             body = [b for b in st.body if not (isinstance(b, ast.Expr) and isinstance(b.value, ast.Constant))]
@@ -713,29 +832,266 @@ def inline_unknown_helpers(tree, rel, tb):
             if len(body) == 1 and isinstance(body[0], ast.Return) and body[0].value is not None and _pure(body[0].value) \
                     and not a.vararg and not a.kwarg and not a.kwonlyargs and not a.defaults:
                 helpers[st.name] = ([x.arg for x in a.posonlyargs + a.args], body[0].value)
-    if not helpers:
+    methods = {}
+    for st in tree.body:
+        if isinstance(st, ast.ClassDef):
+            for m in st.body:
+                if isinstance(m, ast.FunctionDef) and '%s::%s.%s' % (rel, st.name, m.name) not in tb:
+                    r = one_return(m)
+                    if r and r[0] and r[0][0] == 'self':
+                        methods[(st.name, m.name)] = r
+    if not helpers and not methods:
         return []
     used = []
 
+    def subst(expr, m):
+        class S(ast.NodeTransformer):
+            def visit_Name(self, x):
+                if x.id in m and isinstance(x.ctx, ast.Load):
+                    return copy.deepcopy(m[x.id])
+                return x
+        return S().visit(copy.deepcopy(expr))
+
     class T(ast.NodeTransformer):
+        cls = None
+
+        def visit_ClassDef(self, n):
+            old, self.cls = self.cls, n.name
+            self.generic_visit(n)
+            self.cls = old
+            return n
+
         def visit_Call(self, n):
             self.generic_visit(n)
+            # f(*t) with t a literal tuple after inlining: the elements are the arguments
+            if any(isinstance(a, ast.Starred) and isinstance(a.value, ast.Tuple) for a in n.args):
+                na = []
+                for a in n.args:
+                    if isinstance(a, ast.Starred) and isinstance(a.value, ast.Tuple):
+                        na.extend(a.value.elts)
+                    else:
+                        na.append(a)
+                n.args = na
             if isinstance(n.func, ast.Name) and n.func.id in helpers and not n.keywords and len(n.args) == len(helpers[n.func.id][0]) \
                     and all(isinstance(a, (ast.Name, ast.Constant, ast.Attribute)) for a in n.args):
                 ps, expr = helpers[n.func.id]
-                m = dict(zip(ps, n.args))
-
-                class S(ast.NodeTransformer):
-                    def visit_Name(self, x):
-                        if x.id in m and isinstance(x.ctx, ast.Load):
-                            return copy.deepcopy(m[x.id])
-                        return x
                 used.append(n.func.id)
-                return ast.copy_location(S().visit(copy.deepcopy(expr)), n)
+                return ast.copy_location(subst(expr, dict(zip(ps, n.args))), n)
+            if isinstance(n.func, ast.Attribute) and isinstance(n.func.value, ast.Name) and n.func.value.id == 'self' and self.cls is not None \
+                    and (self.cls, n.func.attr) in methods and not n.keywords:
+                ps, expr = methods[(self.cls, n.func.attr)]
+                args = [n.func.value] + list(n.args)
+                if len(args) == len(ps) and all(isinstance(a, (ast.Name, ast.Constant, ast.Attribute)) for a in args):
+                    used.append(n.func.attr)
+                    r = ast.copy_location(subst(expr, dict(zip(ps, args))), n)
+                    for x in ast.walk(r):
+                        if isinstance(x, (ast.expr,)):
+                            ast.copy_location(x, n)
+                    return r
+            return n
+
+        def visit_Starred(self, n):
+            self.generic_visit(n)
             return n
     T().visit(tree)
+    # splice once more for starred tuples produced by the substitution of the outermost call
+    for n in ast.walk(tree):
+        if isinstance(n, ast.Call) and any(isinstance(a, ast.Starred) and isinstance(a.value, ast.Tuple) for a in n.args):
+            na = []
+            for a in n.args:
+                if isinstance(a, ast.Starred) and isinstance(a.value, ast.Tuple):
+                    na.extend(a.value.elts)
+                else:
+                    na.append(a)
+            n.args = na
+    if used:
+        refs = {n.attr for n in ast.walk(tree) if isinstance(n, ast.Attribute)}
+        for st in tree.body:
+            if isinstance(st, ast.ClassDef):
+                st.body = [m for m in st.body if not (isinstance(m, ast.FunctionDef) and (st.name, m.name) in methods and m.name in used and m.name not in refs)] or [ast.Pass()]
     ast.fix_missing_locations(tree)
     return used
+
+
+def inline_unknown_block_helpers(tree, rel, tb):
+    """A function or method that the reference tree does not have, whose body is a short block with at most one `return` (the
+    last statement), is inlined where it is called as a whole statement: `h(a)`, `x = h(a)`, `return h(a)` (methods: on a plain
+    name, usually self).  Parameters bound to plain names / constants are substituted; any other argument is first bound to a
+    fresh temporary at the call site (evaluated once, in argument order, as the call did); locals of the helper that clash with
+    names of the caller get a suffix.  The caller then has the shape it had before the block was extracted, and the temporaries
+    are subject to the same read-back rules as any other unknown temporary."""
+    helpers = {}
+
+    def eligible(st, key):
+        if key in tb or st.decorator_list and any(norm_dec(d) not in ('njit', 'jit', 'numba.njit', 'numba.jit') for d in st.decorator_list):
+            return None
+        a = st.args
+        if a.vararg or a.kwarg or a.kwonlyargs or a.defaults or a.posonlyargs:
+            return None
+        body = [b for b in st.body if not (isinstance(b, ast.Expr) and isinstance(b.value, ast.Constant))]
+        if not body or len(body) > 12:
+            return None
+        for b in body[:-1]:
+            for n in ast.walk(b):
+                if isinstance(n, (ast.Return, ast.Yield, ast.YieldFrom, ast.FunctionDef, ast.Lambda, ast.Global, ast.Nonlocal, ast.ClassDef)):
+                    return None
+        last = body[-1]
+        for n in ast.walk(last):
+            if isinstance(n, (ast.Yield, ast.YieldFrom, ast.FunctionDef, ast.Lambda, ast.Global, ast.Nonlocal, ast.ClassDef)):
+                return None
+            if isinstance(n, ast.Return) and n is not last:
+                return None
+        params = [x.arg for x in a.args]
+        stored = {n.id for b in body for n in ast.walk(b) if isinstance(n, ast.Name) and isinstance(n.ctx, (ast.Store, ast.Del))}
+        if stored & set(params):
+            return None                       # a rebound parameter: substitution would change the caller's variable
+        for n in ast.walk(st):
+            if isinstance(n, ast.Call) and ((isinstance(n.func, ast.Name) and n.func.id == st.name) or (isinstance(n.func, ast.Attribute) and n.func.attr == st.name)):
+                return None                   # recursive
+        return params, body, stored
+
+    def norm_dec(d):
+        return ast.unparse(d.func if isinstance(d, ast.Call) else d)
+    for st in tree.body:
+        if isinstance(st, ast.FunctionDef):
+            e = eligible(st, '%s::%s' % (rel, st.name))
+            if e:
+                helpers[('f', st.name)] = e
+        elif isinstance(st, ast.ClassDef):
+            for m in st.body:
+                if isinstance(m, ast.FunctionDef):
+                    e = eligible(m, '%s::%s.%s' % (rel, st.name, m.name))
+                    if e and e[0]:
+                        helpers[('m', st.name, m.name)] = e
+    if not helpers:
+        return []
+    used = []
+    counter = [0]
+
+    def expand(call, cls_name, caller_names):
+        """(prefix statements, result expression or None) for an eligible call, else None"""
+        key = None
+        recv = None
+        if isinstance(call.func, ast.Name) and ('f', call.func.id) in helpers:
+            key = ('f', call.func.id)
+        elif isinstance(call.func, ast.Attribute) and isinstance(call.func.value, ast.Name) and cls_name is not None \
+                and call.func.value.id == 'self' and ('m', cls_name, call.func.attr) in helpers:
+            key = ('m', cls_name, call.func.attr)
+            recv = call.func.value
+        if key is None or call.keywords:
+            return None
+        params, body, stored = helpers[key]
+        args = ([recv] if recv is not None else []) + list(call.args)
+        if len(args) != len(params) or any(isinstance(a, ast.Starred) for a in args):
+            return None
+        counter[0] += 1
+        pre = []
+        m = {}
+        for prm, a in zip(params, args):
+            if isinstance(a, (ast.Name, ast.Constant)):
+                m[prm] = a
+            else:
+                t = '%s_%d' % (prm, counter[0]) if prm in caller_names else prm
+                while t in caller_names:
+                    t += '_'
+                caller_names.add(t)
+                pre.append(ast.Assign(targets=[ast.Name(id=t, ctx=ast.Store())], value=copy.deepcopy(a)))
+                m[prm] = ast.Name(id=t, ctx=ast.Load())
+        ren = {}
+        for x in stored:
+            if x in caller_names:
+                t = '%s_%d' % (x, counter[0])
+                while t in caller_names:
+                    t += '_'
+                ren[x] = t
+                caller_names.add(t)
+            else:
+                caller_names.add(x)
+
+        class S(ast.NodeTransformer):
+            def visit_Name(self, x):
+                if x.id in m and isinstance(x.ctx, ast.Load):
+                    return copy.deepcopy(m[x.id])
+                if x.id in ren:
+                    return ast.Name(id=ren[x.id], ctx=x.ctx)
+                return x
+        stmts = [S().visit(copy.deepcopy(b)) for b in body]
+        res = None
+        if isinstance(stmts[-1], ast.Return):
+            res = stmts[-1].value
+            stmts = stmts[:-1]
+        used.append(key[-1])
+        return pre + stmts, res
+
+    def rewrite_block(block, cls_name, caller_names):
+        out = []
+        for st in block:
+            for fld in ('body', 'orelse', 'finalbody'):
+                b = getattr(st, fld, None)
+                if isinstance(b, list) and b and isinstance(b[0], ast.stmt) and not isinstance(st, (ast.FunctionDef, ast.ClassDef)):
+                    setattr(st, fld, rewrite_block(b, cls_name, caller_names))
+            for h in getattr(st, 'handlers', []) or []:
+                h.body = rewrite_block(h.body, cls_name, caller_names)
+            call = None
+            if isinstance(st, ast.Expr) and isinstance(st.value, ast.Call):
+                call = st.value
+            elif isinstance(st, (ast.Assign, ast.Return)) and isinstance(st.value, ast.Call):
+                call = st.value
+            e = expand(call, cls_name, caller_names) if call is not None else None
+            if e is None:
+                out.append(st)
+                continue
+            stmts, res = e
+            # positions: the statements read back stand on the line of the call, in order, before the statement that held it
+            n_ = len(stmts)
+            for k_, g_ in enumerate(stmts):
+                nodes = sorted((x for x in ast.walk(g_) if hasattr(x, 'lineno') or isinstance(x, (ast.expr, ast.stmt))),
+                               key=lambda x: (getattr(x, 'lineno', 0), getattr(x, 'col_offset', 0)))
+                base = -10000 * (n_ - k_)
+                for r_, x in enumerate(nodes):
+                    x.lineno = x.end_lineno = st.lineno
+                    x.col_offset = base + min(r_, 9000)
+                    x.end_col_offset = base + min(r_, 9000) + 1
+                g_.col_offset, g_.end_col_offset = base, base + 9999
+            if res is not None:
+                for x in ast.walk(res):
+                    if isinstance(x, (ast.expr, ast.stmt)):
+                        x.lineno, x.end_lineno, x.col_offset, x.end_col_offset = call.lineno, call.end_lineno, call.col_offset, call.end_col_offset
+            out.extend(stmts)
+            if isinstance(st, ast.Expr):
+                if res is not None and not isinstance(res, (ast.Name, ast.Constant)):
+                    out.append(ast.Expr(value=res))
+            elif isinstance(st, ast.Assign):
+                st.value = res if res is not None else ast.Constant(value=None)
+                out.append(st)
+            else:
+                st.value = res
+                out.append(st)
+        return out
+
+    def names_of(fn):
+        return {n.id for n in ast.walk(fn) if isinstance(n, ast.Name)} | {a.arg for a in ast.walk(fn) if isinstance(a, ast.arg)}
+    for st in tree.body:
+        if isinstance(st, ast.FunctionDef) and ('f', st.name) not in helpers:
+            st.body = rewrite_block(st.body, None, names_of(st))
+        elif isinstance(st, ast.ClassDef):
+            for mth in st.body:
+                if isinstance(mth, ast.FunctionDef) and ('m', st.name, mth.name) not in helpers:
+                    mth.body = rewrite_block(mth.body, st.name, names_of(mth))
+    # a helper every call of which was read back is gone from the analysed program
+    if used:
+        refs = set()
+        for n in ast.walk(tree):
+            if isinstance(n, ast.Name) and isinstance(n.ctx, ast.Load):
+                refs.add(n.id)
+            elif isinstance(n, ast.Attribute):
+                refs.add(n.attr)
+        tree.body = [st for st in tree.body if not (isinstance(st, ast.FunctionDef) and ('f', st.name) in helpers and st.name in used and st.name not in refs)]
+        for st in tree.body:
+            if isinstance(st, ast.ClassDef):
+                st.body = [mth for mth in st.body if not (isinstance(mth, ast.FunctionDef) and ('m', st.name, mth.name) in helpers and mth.name in used and mth.name not in refs)] or [ast.Pass()]
+        ast.fix_missing_locations(tree)
+    return sorted(set(used))
 
 
 _TABLE = None
@@ -756,10 +1112,14 @@ def normalise(rel, tree, kwnames=frozenset()):
     (qualname, {spelled: reference}) actually applied."""
     applied = []
     tb = table()
+    _plain_ranges(tree)
     if tb:
         hs = inline_unknown_helpers(tree, rel, tb)
         if hs:
             applied.append(('<module>', {h: '(inlined helper)' for h in hs}))
+        bs = inline_unknown_block_helpers(tree, rel, tb)
+        if bs:
+            applied.append(('<module>', {h: '(helper block read back at its call sites)' for h in bs}))
     for qual, fn in functions(tree):
         ref = tb.get('%s::%s' % (rel, qual))
         if not ref:
@@ -771,7 +1131,9 @@ def normalise(rel, tree, kwnames=frozenset()):
         cl = inline_unknown_closures(fn, rel, qual, tb)
         if cl:
             applied.append((qual, {c: '(inlined local closure)' for c in cl}))
+        reshape_unknown_conditional_assigns(fn, known, {x for d, k, x in ref['locals']})
         split_unknown_tuple_assigns(fn, known, {x for d, k, x in ref['locals']})
+        split_unknown_block_local_defs(fn, known, {x for d, k, x in ref['locals']})
         merge_forwarded_results(fn, known, {x for d, k, x in ref['locals']})
         en = desugar_unknown_enumerate(fn, known)
         if en:
